@@ -476,7 +476,7 @@ fn main() {
         "fork points with more than 40 unacknowledged chunks are skipped (cost of cloning and fingerprinting)".into(),
     ];
     ctx.arm("c03", 1800.0);
-    let n = ctx.volume(60, 2_000, 1, 6);
+    let n = ctx.volume(60, 1_200, 1, 6);
     ctx.run_cases("fork", n, |ctx, idx, rng| {
         let v = if idx % 2 == 0 { Variant::V6Token } else { Variant::V7 };
         let moves = match ctx.tier {
